@@ -102,7 +102,7 @@ def c07_file(draw):
     stmts = list(stmts)
     # decay blocks interleaved
     for _ in range(draw(st.integers(0, 2))):
-        blk = {"k": "decay", "m": draw(st.sampled_from(["Mo1", "Mo2", "Mo3"])), "lines": draw(st.lists(G.decay_line(pool, (), (), max_daughters=3, max_params=3), max_size=2))}
+        blk = {"k": "decay", "m": draw(st.sampled_from(["Mo1", "Mo2", "Mo3"] + [s["x"] for s in stmts if s["k"] == "cdecay"][:2])), "lines": draw(st.lists(G.decay_line(pool, (), (), max_daughters=3, max_params=3), max_size=2))}
         stmts.insert(draw(st.integers(0, len(stmts))), blk)
     # the alias table that counts is the one of the final statement order (later wins): a width-less
     # Particle statement whose name no longer resolves to a particle with a numeric width gets a width
